@@ -31,7 +31,7 @@ ASSUMPTIONS = [
     "FLAT extents use start offset 0",
 ]
 
-NAME_ALPHABET = "abcXYZ019 -_.()'`:ëä中\U0001F98A\""
+NAME_ALPHABET = "abcXYZ019 -_.()'`:#=;,+&ëä中\U0001F98A\""
 TYPES = {"flat": ["FLAT", "VMFS"], "kdmv": ["SPARSE"], "cowd": ["VMFSSPARSE"], "sesparse": ["SESPARSE"]}
 
 
